@@ -14,7 +14,7 @@ import (
 )
 
 // sizes of the templates as Mempool.tla assumes them (TxSize)
-var specSize = map[string]int{"T1": 293, "T2": 227, "T3": 227, "T4": 265, "T5": 227, "T6": 293, "T7": 367,
+var specSize = map[string]int{"T1": 293, "T2": 227, "T3": 227, "T4": 265, "T5": 227, "T6": 293, "T7": 367, "T9": 227,
 	"R1": 459, "R2": 459, "R3": 459, "R4": 459}
 
 func (w *world) checkSizes() string {
